@@ -75,14 +75,15 @@ struct Desc {
 //   2: PUSH2(ab ab) OP_CODESEPARATOR                        -> PUSH2(ab ab)         (0xab inside push data stays)
 //   3: OP_CODESEPARATOR OP_CODESEPARATOR OP_CHECKSIG        -> OP_CHECKSIG
 //   4: OP_DUP OP_CHECKSIG (no separator)                    5: OP_CHECKSIG OP_CODESEPARATOR (separator last) -> OP_CHECKSIG
-//   6: PUSH3 with only 1 byte following (truncated push: parsing stops, nothing is removed) 0x03 0xab
+//   6: PUSHDATA1(len 1: ab) OP_CODESEPARATOR              -> PUSHDATA1(ab)        (push data of an explicit-length push stays)
+//   (scripts with a truncated push are not claimed: they fail to execute whatever the digest, and the legacy serializer's output for them is a historical quirk)
 //   7: (witness only) 3 fully symbolic bytes
 template <int SCK> static void draw_script(Desc& d)
 {
-    static const uint8_t K[8][MAXSC] = {{0}, {0x51, 0xab, 0x52}, {0x02, 0xab, 0xab, 0xab}, {0xab, 0xab, 0xac}, {0x76, 0xac}, {0xac, 0xab}, {0x03, 0xab}, {0, 0, 0}};
-    static const int KL[8] = {0, 3, 4, 3, 2, 2, 2, 3};
-    static const uint8_t S[8][MAXSC] = {{0}, {0x51, 0x52}, {0x02, 0xab, 0xab}, {0xac}, {0x76, 0xac}, {0xac}, {0x03, 0xab}, {0, 0, 0}};
-    static const int SL[8] = {0, 2, 3, 1, 2, 1, 2, 3};
+    static const uint8_t K[8][MAXSC] = {{0}, {0x51, 0xab, 0x52}, {0x02, 0xab, 0xab, 0xab}, {0xab, 0xab, 0xac}, {0x76, 0xac}, {0xac, 0xab}, {0x4c, 0x01, 0xab, 0xab}, {0, 0, 0}};
+    static const int KL[8] = {0, 3, 4, 3, 2, 2, 4, 3};
+    static const uint8_t S[8][MAXSC] = {{0}, {0x51, 0x52}, {0x02, 0xab, 0xab}, {0xac}, {0x76, 0xac}, {0xac}, {0x4c, 0x01, 0xab}, {0, 0, 0}};
+    static const int SL[8] = {0, 2, 3, 1, 2, 1, 3, 3};
     d.sclen = KL[SCK]; d.scslen = SL[SCK];
     for (int i = 0; i < MAXSC; i++) { d.sc[i] = K[SCK][i]; d.scs[i] = S[SCK][i]; }
     if (SCK == 7) for (int i = 0; i < 3; i++) d.sc[i] = d.scs[i] = nondet_u8();
@@ -241,7 +242,7 @@ static void run_ck()
         const uint8_t ht = (uint8_t)(round == 0 ? HT1 : HT2);
         std::vector<unsigned char> sig(3); sig[0] = nondet_u8(); sig[1] = nondet_u8(); sig[2] = ht;
         const CScript code = mkscript(dd);
-        g_nmsg = 0; checker.calls = 0;
+        checker.calls = 0;      // (the message log is NOT reset: the BIP143 cache holds labels of earlier messages)
         const bool r = checker.CheckECDSASignature(sig, pub, code, sv);
         VASSERT(checker.calls == 1, "the signature verifier is consulted exactly once for a non-empty signature and a non-empty key");
         VASSERT(r == checker.verdict, "CheckECDSASignature accepts iff the verifier accepts");
